@@ -239,7 +239,9 @@ func (b *BundleAdd) UnmarshalBinary(data []byte) error {
 	if err != nil {
 		return err
 	}
-	n += int(b.Message.Len())
+	// step over the carried message by its wire length: the decoded value may
+	// report a different size (an echo's payload is not kept)
+	n += msgLen
 	if n < len(data) {
 		b.Properties = make([]BundlePropertyExperimenter, 0)
 		for n < len(data) {
